@@ -17,28 +17,44 @@ Definition enc_key (k : key) : list Qc :=
 Definition enc_genkey (g : genkey) : list Qc :=
   match g with GKey k => qz 0 :: enc_key k | GNoRandom => [qz 1] | GTypeError => [qz 2] end.
 
-(* zs = variant(0 faithful / 1 proposed repair) :: argkind(0 None,1 int,2 Generator) :: argroot :: argoff :: has_seed_data :: seed_data :: n_rep :: path(of the Generator) *)
+(* zs = variant(0 the model = the code with fix c15-execute-simulation-int-seed-stream / 1 as coded before that fix) :: argkind(0 None,1 int,2 Generator) :: argroot :: argoff :: has_seed_data :: seed_data :: n_rep :: path(of the Generator) *)
 Definition op_single_keys : opfun := fun zs _ =>
   match zs with
   | vr :: ak :: ar :: ao :: hs :: sd :: nr :: path =>
       let arg := if (ak =? 0)%Z then SNone else if (ak =? 1)%Z then SInt ar else SGen ar (map Z.to_nat path) (Z.to_nat ao) in
       let sdo := if (hs =? 0)%Z then None else Some sd in
-      Ok (concat (map enc_key ((if (vr =? 0)%Z then single_keys else single_keys_fixed) arg sdo (Z.to_nat nr))))
+      Ok (concat (map enc_key ((if (vr =? 0)%Z then single_keys else single_keys_before_fix) arg sdo (Z.to_nat nr))))
   | _ => Err (-1) end.
 
-(* zs = variant :: seed_qop :: seed_data :: n_sample :: n_rep :: true_seeded :: amb :: tester_seeded...
+(* zs = variant(0 the model = the code with fix c15-flow-generation-stream-per-setting / 1 as coded before that fix)
+        :: seed_qop :: seed_data :: n_sample :: n_rep :: true_seeded :: amb :: tester_seeded...
    reply = raises :: ambient_free :: [genkey(s, j) for s < n_sample, j <= n_tester] ++ [key(r) for r < n_rep] *)
 Definition op_flow_keys : opfun := fun zs _ =>
   match zs with
   | vr :: sq :: sd :: ns :: nr :: ts :: amb :: testers =>
       let c := {| f_seed_qop := sq; f_seed_data := sd; f_n_sample := Z.to_nat ns; f_n_rep := Z.to_nat nr; f_n_case := 0;
                   f_true_seeded := negb (ts =? 0)%Z; f_tester_seeded := map (fun z => negb (z =? 0)%Z) testers |} in
-      let fixed := negb (vr =? 0)%Z in
-      Ok (qb (if fixed then false else flow_raises c) :: qb (if fixed then true else ambient_free c) ::
-          concat (map (fun s => concat (map (fun j => enc_genkey (if fixed then qop_key_fixed c s j else qop_key c (Z.to_nat amb) s j))
+      let before := negb (vr =? 0)%Z in
+      Ok (qb (if before then flow_raises_before_fix c else false) :: qb (if before then ambient_free_before_fix c else true) ::
+          concat (map (fun s => concat (map (fun j => enc_genkey (if before then qop_key_before_fix c (Z.to_nat amb) s j else qop_key c s j))
                                             (seq 0 (S (length testers)))))
                       (seq 0 (f_n_sample c)))
           ++ concat (map (fun r => enc_key (data_key c r)) (seq 0 (f_n_rep c))))
+  | _ => Err (-1) end.
+
+(* estimation tasks and the loss object(s) they load their data into.
+   zs = shared(0 private copies = the model / 1 one shared object = as coded before fix c15-execute-estimation-private-copies)
+        :: steps, a step being 2*t (task t loads its data) or 2*t+1 (task t optimises)
+   reply = program_order :: for every optimise step, in schedule order:  t :: (index of the data it optimised over, -1 = none) *)
+Definition dec_step (z : Z) : step := if Z.even z then SetData (Z.to_nat (z / 2)) else Optimize (Z.to_nat (z / 2)).
+Definition enc_trace (l : list (nat * option nat)) : list Qc :=
+  concat (map (fun tr => [qn (fst tr); match snd tr with Some d => qn d | None => qz (-1) end]) l).
+Definition op_run_tasks : opfun := fun zs _ =>
+  match zs with
+  | sh :: steps =>
+      let sched := map dec_step steps in
+      Ok (qb (program_order [] sched) ::
+          enc_trace (if (sh =? 0)%Z then run_private (fun _ => None) sched else run_shared_before_fix None sched))
   | _ => Err (-1) end.
 
 (* zs = depth-many child counts : all leaves of the spawn tree, each as  len :: path *)
@@ -112,6 +128,7 @@ Definition op_D_op : opfun := fun zs qs =>
 Definition C15_ops : optable :=
   [ ("c15.single_keys"%string, op_single_keys);
     ("c15.flow_keys"%string, op_flow_keys);
+    ("c15.run_tasks"%string, op_run_tasks);
     ("c15.spawn_paths"%string, op_spawn_paths);
     ("c15.par_exec"%string, op_par_exec);
     ("c15.check"%string, op_check);
